@@ -162,6 +162,7 @@ def run(tier, seed):
     res.rule = ("planted / perturbed integer weights on TLC-enumerated DAGs / cyclic digraphs; k in {None, c, c+1} where c is the "
                 "covering number computed by TLC's Cover adversary; features ignore / error_scaling / starts / ends / given weights / "
                 "length factors / constraint; Fit adversary with slacks searches for a strictly smaller total slack")
+    P.attribute_presolve(res, known)
     return res.finish(known, require_classes=["solved", "solved_with_error_scaling", "solved_node_mode", "solved_cyclic",
                                               "adversary_optimality_runs"])
 
